@@ -506,6 +506,14 @@ func copyTree(src, dst string, skip func(rel string) bool) error {
 		if d.IsDir() {
 			return os.MkdirAll(target, 0755)
 		}
+		if d.Type()&os.ModeSymlink != 0 {
+			l, err := os.Readlink(p)
+			if err != nil {
+				return err
+			}
+			os.Remove(target)
+			return os.Symlink(l, target)
+		}
 		b, err := os.ReadFile(p)
 		if err != nil {
 			return err
